@@ -277,6 +277,22 @@ def install(host):
     signal.NSIG = {'darwin': 32, 'bsdlike': 129, 'windowslike': 23}.get(host, 200)      # number of signals: 32 Darwin, 65 Linux, 129 FreeBSD
     os.strerror = lambda code: 'host error text %d' % code
     sys.platform = 'darwin' if host == 'darwin' else 'freebsd13'
+    # every way of asking which system this is gives the same answer: platform.system() / uname() / os.uname()
+    import collections
+    import platform
+    system = {'darwin': 'Darwin', 'bsdlike': 'FreeBSD', 'windowslike': 'Windows', 'permuted': 'SunOS'}.get(host, 'AIX')
+    release = {'Darwin': '23.4.0', 'FreeBSD': '13.2-RELEASE', 'Windows': '10', 'SunOS': '5.11'}.get(system, '7.3')
+    uname = collections.namedtuple('uname_result', 'system node release version machine')(system, 'host', release, release, 'arm64')
+    platform.system = lambda: system
+    platform.release = lambda: release
+    platform.uname = lambda: uname
+    platform.platform = lambda *a, **kw: f'{system}-{release}'
+    platform.mac_ver = lambda *a, **kw: ('14.4', ('', '', ''), 'arm64') if system == 'Darwin' else ('', ('', '', ''), '')
+    os.uname = lambda: collections.namedtuple('posix_uname', 'sysname nodename release version machine')(system, 'host', release, release, 'arm64')
+    if host == 'darwin':
+        # a Mac newer than the tool's bundled tables: its interpreter knows error numbers above 106
+        errno.errorcode.update({107: 'ENOTCAPABLE', 108: 'ENEWERTHANTHETOOL'})
+        errno.ENOTCAPABLE = 107
     if host in ('scrambled', 'permuted'):
         sys.byteorder = 'big'          # what the interpreter reports on s390x / ppc64 / sparc64 (read at import time or later)
     os.environ['TZ'] = 'America/Los_Angeles' if host == 'darwin' else 'Asia/Kolkata'
